@@ -717,7 +717,7 @@ func (w *vocWorld) exec(toks []string) (op string, reply string) {
 						// behind a blocked entry of the same list: recorded, not delivered
 						vc.deferred, vc.hupped, tag = true, true, ":hupq"
 					case vc.gate != nil:
-						dl := time.Now().Add(2 * time.Second)
+						dl := time.Now().Add(4 * time.Second)
 						for atomic.LoadInt32(&vc.disc) == 0 && time.Now().Before(dl) {
 							time.Sleep(50 * time.Microsecond)
 						}
